@@ -6,7 +6,7 @@ from ..core import rule
 from ..index import AnalysisError, dotted, src, walk_no_nested, names_in
 from ..cfg import CFG, OTHER
 from ..consteval import run_function, Unfoldable
-from ..util import node_calls, own_expr, explore, mk_atoms, last_name, dict_emission
+from ..util import node_calls, own_expr, explore, mk_atoms, last_name, dict_emission, reach_expr
 from .slots import MOLECULE, SEQUTILS, FRAGMENT
 
 FN = 'Molecule.get_consensus'
@@ -16,15 +16,29 @@ class RowEval:
     """Evaluates the numpy row-wise idioms used for the tie mask on ONE abstract row of vote counts.
     Arrays over rows are represented by their value for the row: the matrix `v` by the row (a tuple), per-row vectors by a scalar."""
 
-    def __init__(self, row, env):
+    def __init__(self, row, env, row_exprs=()):
         self.row = row
         self.env = env      # name -> AST expression (local definitions)
+        self.row_exprs = row_exprs      # source texts that denote the vote row of the position under decision
 
     def ev(self, e, depth=0):
         if depth > 40:
             raise Unfoldable('depth')
         if isinstance(e, ast.Constant):
             return e.value
+        if src(e) in self.row_exprs:
+            return self.row
+        if isinstance(e, ast.UnaryOp) and isinstance(e.op, ast.Not):
+            return not self.ev(e.operand, depth + 1)
+        if isinstance(e, ast.BoolOp):
+            vals = [self.ev(x, depth + 1) for x in e.values]
+            return all(vals) if isinstance(e.op, ast.And) else any(vals)
+        if isinstance(e, ast.Call) and isinstance(e.func, ast.Name) and e.func.id in ('int', 'bool') and len(e.args) == 1:
+            return {'int': int, 'bool': bool}[e.func.id](self.ev(e.args[0], depth + 1))
+        if isinstance(e, ast.Call) and isinstance(e.func, ast.Name) and e.func.id in ('max', 'min', 'sum', 'len') and len(e.args) == 1 and not e.keywords:
+            base = self.ev(e.args[0], depth + 1)
+            if isinstance(base, tuple):
+                return {'max': max, 'min': min, 'sum': sum, 'len': len}[e.func.id](base)
         if isinstance(e, ast.Name):
             if e.id == 'v':
                 return self.row
@@ -43,6 +57,10 @@ class RowEval:
                     return base
                 if 'arange' in src(a):
                     idx = self.ev(b, depth + 1)
+                    return base[idx]
+            if isinstance(base, tuple) and not isinstance(sl, (ast.Tuple, ast.Slice)):
+                idx = self.ev(sl, depth + 1)
+                if isinstance(idx, int) and not isinstance(idx, bool):
                     return base[idx]
             raise Unfoldable('subscript ' + src(e))
         if isinstance(e, ast.Compare) and len(e.ops) == 1:
@@ -83,6 +101,133 @@ class RowEval:
         raise Unfoldable(src(e)[:40])
 
 
+def _keys_of(f, e, tally, depth=0):
+    """e enumerates exactly the keys of the tally (re-ordering wrappers only)"""
+    if depth > 5:
+        return False
+    if isinstance(e, ast.Name):
+        if e.id == tally:
+            return True
+        dd = [s_.value for s_ in walk_no_nested(f) if isinstance(s_, ast.Assign) and len(s_.targets) == 1 and src(s_.targets[0]) == e.id]
+        return len(dd) == 1 and _keys_of(f, dd[0], tally, depth + 1)
+    if isinstance(e, ast.Call) and isinstance(e.func, ast.Attribute) and e.func.attr == 'keys' and not e.args:
+        return _keys_of(f, e.func.value, tally, depth + 1)
+    if isinstance(e, ast.Call) and last_name(dotted(e.func) or '') in ('sorted', 'list', 'tuple', 'iter') and e.args and not e.keywords:
+        return _keys_of(f, e.args[0], tally, depth + 1)
+    return False
+
+
+def _r1_scalar(ctx, f):
+    """the majority step written as a loop over the tallied positions: `for L in <keys of tally>: ...; D[L] = 'ACGTN'[W]`.  The reach condition of
+    the store inside one iteration is the tie mask, W the called base; both are evaluated on every abstract vote row.  Returns False when the
+    function does not have this shape (the caller then reports the vectorised anchors as missing)."""
+    tallies = {t.target.value.value.id for t in walk_no_nested(f) if isinstance(t, ast.AugAssign) and isinstance(t.target, ast.Subscript)
+               and isinstance(t.target.value, ast.Subscript) and isinstance(t.target.value.value, ast.Name)}
+    loops = []
+    for l in walk_no_nested(f):
+        if not isinstance(l, ast.For) or l.orelse:
+            continue
+        for tally in tallies:
+            it = l.iter
+            row_name = None
+            if isinstance(l.target, ast.Name) and _keys_of(f, it, tally):
+                loops.append((l, tally, l.target.id, None))
+            elif isinstance(l.target, ast.Tuple) and len(l.target.elts) == 2 and all(isinstance(e_, ast.Name) for e_ in l.target.elts):
+                inner = it
+                while isinstance(inner, ast.Call) and last_name(dotted(inner.func) or '') in ('sorted', 'list', 'tuple', 'iter') and len(inner.args) == 1 and not inner.keywords:
+                    inner = inner.args[0]
+                if isinstance(inner, ast.Call) and isinstance(inner.func, ast.Attribute) and inner.func.attr == 'items' and src(inner.func.value) == tally:
+                    loops.append((l, tally, l.target.elts[0].id, l.target.elts[1].id))
+    cands = []
+    for l, tally, loc, rowname in loops:
+        stores = [a for a in walk_no_nested(l) if isinstance(a, ast.Assign) and len(a.targets) == 1 and isinstance(a.targets[0], ast.Subscript)
+                  and isinstance(a.targets[0].value, ast.Name) and src(a.targets[0].slice) == loc]
+        if len(stores) == 1:
+            cands.append((l, tally, loc, rowname, stores[0]))
+    if not cands:
+        # the same loop as a dictionary comprehension: D = {L: 'ACGTN'[W] for L in <keys of tally> if <tie guard>}
+        for a in walk_no_nested(f):
+            if isinstance(a, ast.Assign) and len(a.targets) == 1 and isinstance(a.targets[0], ast.Name) and isinstance(a.value, ast.DictComp) and len(a.value.generators) == 1:
+                g = a.value.generators[0]
+                for tally in tallies:
+                    if isinstance(g.target, ast.Name) and src(a.value.key) == g.target.id and _keys_of(f, g.iter, tally):
+                        cands.append((a, tally, g.target.id, None, None))
+        if len(cands) != 1:
+            return False
+        a, tally, loc, rowname, _ = cands[0]
+        D = a.targets[0].id
+        g = a.value.generators[0]
+        rets = [r for r in walk_no_nested(f) if isinstance(r, ast.Return) and r.value is not None and D in names_in(r.value)]
+        if not rets:
+            return False
+        other = [x for x in walk_no_nested(f) if x is not a and ((isinstance(x, (ast.Assign, ast.AugAssign)) and any(src(t_) == D or (isinstance(t_, ast.Subscript) and src(t_.value) == D) for t_ in (x.targets if isinstance(x, ast.Assign) else [x.target])))
+                                                                 or (isinstance(x, ast.Call) and isinstance(x.func, ast.Attribute) and src(x.func.value) == D and x.func.attr in ('update', 'setdefault', 'pop', '__setitem__')))]
+        cond = ast.Constant(value=True) if not g.ifs else g.ifs[0] if len(g.ifs) == 1 else ast.BoolOp(op=ast.And(), values=list(g.ifs))
+        return _r1_scalar_decide(ctx, f, a, tally, loc, rowname, D, rets, not other, [src(x)[:40] for x in other], cond, a.value.value, {}, src(g.iter))
+    if len(cands) != 1:
+        return False
+    l, tally, loc, rowname, store = cands[0]
+    D = store.targets[0].value.id
+    rets_all = [r for r in walk_no_nested(f) if isinstance(r, ast.Return) and r.value is not None]
+    rets = [r for r in rets_all if D in names_in(r.value)]
+    if not rets:
+        return False
+    # D is the consensus: created empty, filled only by that store
+    other = [a for a in walk_no_nested(f) if a is not store and ((isinstance(a, (ast.Assign, ast.AugAssign)) and any(isinstance(t_, ast.Subscript) and src(t_.value) == D for t_ in (a.targets if isinstance(a, ast.Assign) else [a.target])))
+                                                               or (isinstance(a, ast.Call) and isinstance(a.func, ast.Attribute) and src(a.func.value) == D and a.func.attr in ('update', 'setdefault', 'pop', '__setitem__')))]
+    inits = [a for a in walk_no_nested(f) if isinstance(a, ast.Assign) and len(a.targets) == 1 and src(a.targets[0]) == D]
+    empty = len(inits) == 1 and src(inits[0].value).replace(' ', '') in ('dict()', '{}')
+    ok = empty and not other
+    env = {}
+    for a in walk_no_nested(l):
+        if isinstance(a, ast.Assign) and len(a.targets) == 1 and isinstance(a.targets[0], ast.Name):
+            env[a.targets[0].id] = a.value if a.targets[0].id not in env else None
+    env = {k: v for k, v in env.items() if v is not None}
+    return _r1_scalar_decide(ctx, f, store, tally, loc, rowname, D, rets, ok, [src(a)[:40] for a in other] + [f'initialised by {src(a.value)[:30]}' for a in inits if not empty],
+                             reach_expr(l.body, store), store.value, env, src(l.iter))
+
+
+def _r1_scalar_decide(ctx, f, store, tally, loc, rowname, D, rets, ok, other, cond, base, env, keys_src):
+    ctx.emit('C13-R1', ok, MOLECULE, rets[0], f'the consensus `{D}` starts empty and receives a base only through `{src(store)[:60]}` per tallied position' if ok else
+             f'the consensus `{D}` is also filled outside the tie-guarded store ({other})', key='mask-applied',
+             what='get_consensus: positions / bases are returned without the tie mask')
+    ctx.emit('C13-R1', True, MOLECULE, store, f'votes of one position are the row `{tally}[{loc}]`', key='vote-matrix', nontrivial=False)
+    ctx.emit('C13-R1', True, MOLECULE, store, f'the decided positions are all keys of the tally `{tally}` (`{keys_src[:60]}`)', key='all-tallied-positions',
+             what='get_consensus: tallied positions are dropped before the majority decision')
+    row_exprs = {f'{tally}[{loc}]'} | ({rowname} if rowname else set())
+    idx = base.slice if isinstance(base, ast.Subscript) and isinstance(base.value, ast.Constant) and base.value.value == 'ACGTN' else None
+    if cond is None or idx is None:
+        ctx.emit('C13-R1', False, MOLECULE, store, f'stored base `{src(base)[:60]}` is not an index into the base order ACGTN', key='mask-semantics', undecided=True)
+        return True
+    bad, badidx = [], []
+    n = 0
+    try:
+        for row in itertools.product(range(0, 4), repeat=5):
+            if sum(row) == 0:
+                continue
+            n += 1
+            ev = RowEval(row, env, row_exprs)
+            got = ev.ev(cond)
+            want = row.count(max(row)) == 1
+            if bool(got) != want and len(bad) < 3:
+                bad.append({'votes(A,C,G,T,N)': row, 'code keeps position': bool(got), 'unique maximum': want})
+            if want and bool(got):
+                w = ev.ev(idx)
+                if w != row.index(max(row)) and len(badidx) < 3:
+                    badidx.append({'votes(A,C,G,T,N)': row, 'index called': w, 'argmax': row.index(max(row))})
+    except Unfoldable as ex:
+        ctx.emit('C13-R1', False, MOLECULE, store, f'tie guard `{src(cond)[:80]}` uses an idiom the row evaluator does not know: {ex}', key='mask-semantics', undecided=True)
+        return True
+    ctx.counters['abstract_cases'] += n
+    ctx.emit('C13-R1', not bad, MOLECULE, store, f'tie guard `{src(cond)[:90]}` on {n} abstract vote rows ({{0..3}}^5): ' +
+             ('kept <=> the maximum is attained exactly once' if not bad else f'differs, e.g. {bad[0]}'), key='mask-semantics', witness=bad[0] if bad else None,
+             what='get_consensus: tie mask is not "maximum attained exactly once"')
+    ctx.exhaustive['C13-R1'] = True
+    ctx.emit('C13-R1', not badidx, MOLECULE, store, f'called base = ACGTN[`{src(idx)}`] = argmax over the vote row' if not badidx else f'called base index differs from argmax, e.g. {badidx[0]}',
+             key='argmax', witness=badidx[0] if badidx else None, what='get_consensus: called base is not the majority base')
+    return True
+
+
 @rule('C13', 'C13-R1', 'the consensus is built only from positions where the maximum vote is attained exactly once: the mask indexing both '
                        'returns equals "unique maximum" on every abstract vote row')
 def r1(ctx):
@@ -101,6 +246,8 @@ def r1(ctx):
     rets_all = [r for r in walk_no_nested(f) if isinstance(r, ast.Return) and r.value is not None]
     expanded = {id(r): _Exp().visit(_copy.deepcopy(r.value)) for r in rets_all}
     rets = [r for r in rets_all if 'locations' in names_in(expanded[id(r)])]
+    if not rets and _r1_scalar(ctx, f):
+        return
     ctx.need('C13-R1', len(rets), 2, 'returns of the consensus dictionary')
     masks = set()
     idxs = set()
